@@ -63,6 +63,32 @@ fn op_table(payload: &str) -> String {
             let mask = tiny_skia::Mask::from_pixmap(pm.as_ref(), tiny_skia::MaskType::Luminance);
             format!("{{\"src\":[{}],\"t\":[{}]}}", join(pm.data().iter()), join(mask.data().iter()))
         }
+        // extension round 4: group opacity as render_group applies it - draw_pixmap with PixmapPaint { opacity, SourceOver, Nearest }
+        // onto a transparent pixmap.  `opacity:<lo>:<hi>`: opacity = o / 255 for o in lo..hi, source pixel x = c is (c, c, c, c);
+        // index (o - lo) * 256 + c; -1 when the four channels of the result differ.  `opacityf:<f32 bits>`: one row for that opacity.
+        "opacity" | "opacityf" => {
+            let ops: Vec<f32> = if f[0] == "opacity" {
+                let lo: u32 = f.get(1).and_then(|x| x.parse().ok()).unwrap_or(0);
+                let hi: u32 = f.get(2).and_then(|x| x.parse().ok()).unwrap_or(256);
+                (lo..hi).map(|o| o as f32 / 255.0).collect()
+            } else {
+                vec![f32::from_bits(f.get(1).and_then(|x| x.parse().ok()).unwrap_or(0))]
+            };
+            let mut src = tiny_skia::Pixmap::new(256, 1).unwrap();
+            for c in 0..256usize {
+                src.data_mut()[c * 4..c * 4 + 4].copy_from_slice(&[c as u8; 4]);
+            }
+            let mut out: Vec<i32> = Vec::new();
+            for o in ops {
+                let mut dst = tiny_skia::Pixmap::new(256, 1).unwrap();
+                let paint = tiny_skia::PixmapPaint { opacity: o, blend_mode: tiny_skia::BlendMode::SourceOver, quality: tiny_skia::FilterQuality::Nearest };
+                dst.draw_pixmap(0, 0, src.as_ref(), &paint, tiny_skia::Transform::identity(), None);
+                for p in dst.data().chunks_exact(4) {
+                    out.push(if p[0] == p[1] && p[1] == p[2] && p[2] == p[3] { p[0] as i32 } else { -1 });
+                }
+            }
+            format!("{{\"t\":[{}]}}", join(out.iter()))
+        }
         _ => "{\"error\":\"unknown table\"}".to_string(),
     }
 }
